@@ -9,7 +9,7 @@ LEVEL = 'exploration'
 RULE = ('complete matrix: mutating entry point {setitem, append, iterappend (non-empty and empty iterable), truncate, '
         'delete, metadata update / setitem / pop / popitem / del} x {Array, RaggedArray} x how mode r was obtained '
         '{default open, accessmode=r at creation (asarray, create_array, asraggedarray, create_raggedarray), assignment, '
-        'r -> r+ -> r, after an explicit r+ context on the r handle, after successful use in r+} x state {first axis 0 (1-D, 2-D), non-empty, ragged with 0 subarrays, ragged with only empty '
+        'r -> r+ -> r, after an explicit r+ context on the r handle, after successful use in r+, after the metadata object alone was switched to r+ and the handle re-assigned r} x state {first axis 0 (1-D, 2-D), non-empty, ragged with 0 subarrays, ragged with only empty '
         'subarrays, ragged non-empty} x {without metadata, with two keys, with exactly one key}: the call must raise and leave a byte-identical '
         'directory snapshot; after accessmode = r+ the same call must succeed where valid and show its effect. Every '
         'cell is non-trivial; distinct by cell')
@@ -30,7 +30,7 @@ ARRAY_OPS = ['setitem', 'append', 'iterappend', 'iterappend_empty', 'truncate', 
 RAGGED_OPS = ['append', 'append_empty', 'iterappend', 'iterappend_empty', 'truncate', 'delete', 'md_update',
               'md_setitem', 'md_pop', 'md_popitem', 'md_del']
 ORIGINS = ['default_open', 'at_creation', 'create_func', 'assigned', 'cycled', 'after_rplus_context',
-           'after_rplus_use']
+           'after_rplus_use', 'metadata_mode_then_reassigned']
 ARRAY_STATES = ['empty1d', 'empty2d', 'nonempty1d', 'nonempty2d']
 RAGGED_STATES = ['nosub', 'onlyempty', 'nonempty', 'nonempty_atom2']
 
@@ -96,6 +96,12 @@ def build(env, d, case):
         else:
             with h.open_arrays(accessmode='r+'):
                 pass
+    elif origin == 'metadata_mode_then_reassigned':
+        # the metadata object's own (public) accessmode was set to r+ while the handle is in r;
+        # assigning accessmode = 'r' to the handle afterwards must lock everything again
+        h = opener(p)
+        h.metadata.accessmode = 'r+'
+        h.accessmode = 'r'
     elif origin == 'after_rplus_use':
         # successful writes in r+, then the mode is assigned back to r
         if case['kind'] == 'Array':
